@@ -383,6 +383,8 @@ PROPS["C16"] = {
           bound="5-byte key, 7-byte data (symbolic); hmac substitute", module=SM, timeout=600),
         K("encode: plain length field", "c16_encode_plain_length", "quick", "bounded", ["encode_stun_message", "append_attribute"],
           "no MI/FP: length == len-20, LIFETIME layout", bound="1 LIFETIME attribute", module=SM, timeout=600),
+        K("decode(encode) Binding success + XOR-MAPPED v4", "c16_decode_of_encode_xor_mapped_v4", "thorough", "bounded", ["encode_stun_message", "decode_stun_message", "append_xor_address", "parse_xor_address"],
+          "the message encode produced decodes to the same class, method, transaction id and address", bound="one IPv4 XOR-MAPPED-ADDRESS; framing octets asserted then re-written as literals", module=SM, timeout=2400),
         K("decode: Binding success + XOR-MAPPED-ADDRESS v4 (literal framing)", "c16_decode_xor_mapped_v4_literal", "quick", "bounded", ["decode_stun_message", "parse_xor_address"],
           "class, method, transaction id recovered; address/port un-XORed with the cookie; no other field set",
           bound="32-byte message; type/length/attribute-header octets literal, transaction id / port / address symbolic", module=SM, timeout=900),
